@@ -249,4 +249,32 @@ theorem objects_before_xref {s s' : WState} {cat : Obj} {info : Option Obj} {tr 
       rw [i2.pos_eq]; exact this
     · rw [n2] at h1; cases h1
 
+/-- **entries_not_behind_xrefstream.**  Stream form, after a successful `Close`: no in-use entry
+outside object streams has an offset behind `x`, the offset of the cross-reference stream object
+that `startxref` names; the entry at `x` is the stream's own. -/
+theorem entries_not_behind_xrefstream {s s' : WState} {cat : Obj} {info : Option Obj} {tr : List (Bytes × Obj)} {raw : Bytes}
+    (hi : Inv s) (hna : C02fioj.NoAfter s) (hobj : s.opts.objStm = true) (h : close s cat info tr raw = .ok s')
+    (hsize : s'.out.length < 10000000000) :
+    ∃ x, Spec.FileWF.checkTail s'.out = .ok x ∧
+      ∀ n e, s'.xref.get n = some e → e.inStream = 0 → 0 ≤ e.pos → e.pos.toNat ≤ x := by
+  obtain ⟨s3, ref, cr, ir, mid, _, _, _, i3, _, _, _, _, hx, _, hout, hnr, hlast, _⟩ :=
+    C02fioj.close_xrefstream_form hi hna hobj h
+  have hpos19 : s3.pos < 10 ^ 19 := by
+    rw [i3.pos_eq]; rw [hout] at hsize; simp at hsize; omega
+  refine ⟨s3.pos, ?_, ?_⟩
+  · rw [hout]
+    have : s3.out ++ mid ++ kEndstream ++ kStartxref ++ decOf s3.pos ++ kEOF
+        = (s3.out ++ mid ++ kEndstream.dropLast) ++ [10] ++ kStartxref ++ decOf s3.pos ++ kEOF := by
+      simp [kEndstream]
+    rw [this]
+    exact spec_tail_ok _ _ hpos19
+  · intro n e hg hs hp
+    rw [hx n] at hg
+    split at hg
+    · cases hg; simp
+    · rcases i3.entries n e hg hs hp with ha | ⟨st, _, _, _, _, h5⟩
+      · have := ha.end_le
+        rw [i3.pos_eq]; omega
+      · omega
+
 end PdfVerif.C03fiob
